@@ -92,9 +92,9 @@ def gen_case(rnd, ctx, maxlen):
         elif k == "SymDiffUpdate":
             op = [k, items()]
         else:
-            if target != "plain":
-                continue
-            kind = rnd.choice(["copy", "deep", "pickle"])
+            # a TraitSetObject taken alone is copied by deepcopy only: its __setstate__ (copy.copy, pickle)
+            # deliberately disconnects it from its trait (trait = None), deepcopy keeps the trait
+            kind = rnd.choice(["copy", "deep", "pickle"]) if target == "plain" else "deep"
             op = ["Copy", kind] + ([rnd.randint(0, 5)] if kind == "pickle" else [])
         ops.append(op)
         ctx.count("op:" + op[0])
@@ -118,6 +118,9 @@ def corpus():
         for vk in ("VAll", "VInt", "VCInt"):
             cs.append(dict(vk=vk, target="plain", init=[1, 2],
                            ops=[["Copy"] + kind, ["Add", 103], ["Add", 200], ["Add", 4], ["Ixor", "set", [1, 104, 5]]]))
+    for vk in ("VAll", "VInt", "VCInt"):
+        cs.append(dict(vk=vk, target="obj", init=[1, 2],
+                       ops=[["Copy", "deep"], ["Add", 103], ["Add", 200], ["Add", 4], ["Ixor", "set", [1, 104, 5]]]))
     cs.append(dict(vk="VCInt", target="plain", init=[1, 2, 3],
                    ops=[["Ixor", "set", [101, 4]], ["SymDiffUpdate", [102, 105, 200]], ["SymDiffUpdate", [103, 3]]]))
     return cs
